@@ -55,7 +55,7 @@ fn flat_rows(polys: &[Polytope]) -> Option<Vec<Row>> {
 
 pub fn regions(rep: &mut Report, tier: Tier) {
     let (n, reps) = if tier == Tier::Quick { (3, 2) } else { (4, 3) };
-    rep.rule = "binary trees (total/partial, scrambled arena indices): polyhedra() and polyhedra_iter() streams vs reference pre-order (depth, index, remaining siblings) and vs the closed path polytope computed from path_to_node, for every skip_subtree position; find_terminal/evaluate vs exact routing on every lattice point (labels = path of the returned leaf, x satisfies every reported path condition), interior points are routed through the node, terminal regions have disjoint interiors, total trees cover the lattice; non-trivial: tree has >= 2 decisions".into();
+    rep.rule = "binary trees (total/partial, scrambled arena indices): polyhedra() and polyhedra_iter() streams vs reference pre-order (depth, index, remaining siblings) and vs the closed path polytope computed from path_to_node, for every skip_subtree position (single and repeated request); find_terminal/evaluate vs exact routing on every lattice point (labels = path of the returned leaf, x satisfies every reported path condition), interior points are routed through the node, terminal regions have disjoint interiors, total trees cover the lattice; non-trivial: tree has >= 2 decisions".into();
     rep.bound = format!("shapes with <= {n} decisions x {reps} assignment(s), dims in {{1,2}}, lattice [-3,3]^d step 1/2, all skip positions");
     let sh = shapes(2, n, true);
     let mut idx = 0u64;
@@ -77,7 +77,7 @@ pub fn regions(rep: &mut Report, tier: Tier) {
             rep.sample(descr.clone());
             let want = preorder(&x, x.root);
             // 1/3: generator stream with every skip position
-            for skip_at in 0..=want.len() {
+            for (skip_at, repeat) in (0..=want.len()).flat_map(|s| [(s, 1usize), (s, 2usize)]) {
                 let mut it = t.polyhedra();
                 let mut seen = vec![];
                 let mut expect = want.clone();
@@ -96,7 +96,9 @@ pub fn regions(rep: &mut Report, tier: Tier) {
                         }
                     }
                     if seen.len() == skip_at {
-                        it.skip_subtree();
+                        for _ in 0..repeat {
+                            it.skip_subtree();
+                        }
                         let last = item.1;
                         let head: Vec<_> = expect[..pos].to_vec();
                         let tail: Vec<_> = expect[pos..].iter().filter(|q| !is_desc(&x, last, q.1)).cloned().collect();
@@ -108,7 +110,7 @@ pub fn regions(rep: &mut Report, tier: Tier) {
                     }
                 }
                 if seen != expect {
-                    rep.viol(idx, "stream", format!("polyhedra() with skip_subtree after item {skip_at}: got {seen:?} want {expect:?} | {descr}"));
+                    rep.viol(idx, "stream", format!("polyhedra() with skip_subtree x{repeat} after item {skip_at}: got {seen:?} want {expect:?} | {descr}"));
                 }
             }
             // 2: iterator wrapper incl. size_hint
